@@ -62,11 +62,11 @@ def coeff_vectors(sp, periodic, rng, nrand):
     return vecs
 
 
-def check_space(ctx, sp, periodic, rng, quick, stats):
+def check_space(ctx, sp, periodic, rng, quick, stats, maps=None):
     from pygyro.splines import splines as spl
     from pygyro.splines import spline_eval_funcs as nu
     from pygyro.splines import cubic_uniform_spline_eval_funcs as cu
-    maps = MAPS[:2] if quick else MAPS
+    maps = maps or (MAPS[:2] if quick else MAPS)
     for (a, h) in maps:
         exact_map = (h in (1.0, 0.25, 2.0))
         basis = sp.make(a, h)
@@ -314,6 +314,16 @@ def run(ctx):
     for sp in todo + hi:
         for (s, periodic) in variants(sp):
             check_space(ctx, s, periodic, rng, quick, stats)
+    # the uniform-cubic fast path computes the cell of x in closed form from (x - xmin) / dx: domains whose width is not a
+    # floating-point multiple of the cell width ([-1,1] or [0,1] in 9-11 cells), at both ends and one ulp inside in particular
+    try:
+        many = so.run_box(ctx, 3, 11, 11, kinds=("cu",), uniform_only=True, mincells=9, what="uniform cubic spaces with 9-11 cells")
+    except Machinery as ex:
+        many = []
+        ctx.note("uniform cubic spaces with 9-11 cells not available: %s" % str(ex)[:150])
+    for sp in many:
+        for (s, periodic) in variants(sp):
+            check_space(ctx, s, periodic, rng, True, stats, maps=[(-1.0, 2.0 / sp.ncells), (0.0, 1.0 / sp.ncells)])
     pool = [v for s in todo if s.p <= 5 and s.ncells >= 2 for v in variants(s)]
     cu_pool = [v for v in pool if v[0].kind == "cu"]
     ge_pool = [v for v in pool if v[0].kind != "cu"]
